@@ -180,7 +180,7 @@ def check_int(ctx, F):
     groups = [('small', small_vs[i:i + 60], small_ws) for i in range(0, len(small_vs), 60)]
     groups += [('k=%d' % k, vs, ws) for k, vs, ws in boundary_values(kmax)]
     exprs = ['(h_int %s %s, h_const_int %s %s)' % (zl(vs), ol(ws), zl(vs), ol(ws)) for _, vs, ws in groups]
-    res = ctx.coq_eval(exprs, IMPORTS, tag='c16int', shard=8, jobs=12)
+    res = ctx.coq_eval(exprs, IMPORTS, tag='c16int', shard=24, jobs=12)
     pyrtl.reset_working_block()
     n_const = 0
     for (gname, vs, ws), (m_inf, m_const) in zip(groups, res):
@@ -327,7 +327,7 @@ def check_verilog(ctx, F):
         sub = [strings[i] for i in ch]
         exprs.append('(h_str %s [None; Some 0; Some 1; Some 4; Some 7], h_const_str %s [None; Some 1; Some 4; Some 7])'
                      % (sll(sub), sll(sub)))
-    res = ctx.coq_eval(exprs, IMPORTS, tag='c16str', shard=4, jobs=12)
+    res = ctx.coq_eval(exprs, IMPORTS, tag='c16str', shard=3, jobs=12)
     PW = [None, 0, 1, 4, 7]
     CW = [None, 1, 4, 7]
     pyrtl.reset_working_block()
@@ -415,7 +415,7 @@ def check_signed_and_twos(ctx, F):
                    {s * ((1 << (k - 1)) + d) for s in (1, -1) for d in (-1, 0, 1)})
         groups.append((b, [k - 1, k, k + 1]))
     exprs = ['(h_vts %s %s, h_twos %s %s)' % (zl(v), zl(w), zl(v), zl(w)) for v, w in groups]
-    res = ctx.coq_eval(exprs, IMPORTS, tag='c16vts', shard=10, jobs=12)
+    res = ctx.coq_eval(exprs, IMPORTS, tag='c16vts', shard=26, jobs=12)
     for (vs, ws), (m_vts, m_twos) in zip(groups, res):
         for vi, v in enumerate(vs):
             for wi, w in enumerate(ws):
@@ -530,7 +530,7 @@ def check_formats(ctx, F):
         fs = ['%s%d' % (t, k) for t in 'suxb']
         groups.append((k, sorted({0, 1, (1 << (k - 1)) - 1, 1 << (k - 1), (1 << (k - 1)) + 1, (1 << k) - 2, (1 << k) - 1}), fs))
     exprs = ['h_to_str %s %s (%s)' % (zl(vs), sll(fs), ENUM_COQ) for _, vs, fs in groups]
-    res = ctx.coq_eval(exprs, IMPORTS, tag='c16fmt', shard=6, jobs=12)
+    res = ctx.coq_eval(exprs, IMPORTS, tag='c16fmt', shard=10, jobs=12)
     back_cases = []      # (data, format, v or None)
     for (w, vs, fs), m in zip(groups, res):
         for vi, v in enumerate(vs):
